@@ -69,6 +69,13 @@ class ContractionCosts:
                         c[IDX_SIZE] - c[IDX_SIZE] // d
                     )
 
+        # only indices that actually feature in some contraction can be
+        # sliced, for example not those already sliced or projected, or those
+        # which are summed over as part of single tensor preprocessing
+        self.size_dict = {
+            ix: d for ix, d in self.size_dict.items() if ix in self._where
+        }
+
         self.nslices = nslices
         if original_flops is None:
             original_flops = self._flops
